@@ -487,6 +487,6 @@ func main() {
 	}
 	opSeek(r, nSeek)
 	opReadOffset(r, nSeek/2)
-	opGroupAndMeta(r, nScen)
+	opGroupAndMeta(r, nScen+6) // the first six walk OffsetFetch through v0–v5
 	opMappingsF(r, nSeek/2)
 }
